@@ -711,7 +711,7 @@ func c08(r *core.Run) {
 		o.Site(n, "arguments handed down by the token limiter's wrappers")
 	})
 
-	r.Check("D4/K2/rescue-iff-redis-down", "reserveN: when atomic redisAlive == 0 the script is not evaluated and the answer is rescueLimiter.AllowN(now, n); after EvalCtx (decided by evaluating reserveN from the evaluation on in each scenario: the error is nil / redis.Nil / matches context.DeadlineExceeded / matches context.Canceled / is something else, the caller's ctx.Err() is nil / non-nil, the reply is / is not an int64), false is answered exactly for err == redis.Nil and for an error that matches a context error WHILE the caller's own context is done (ctx.Err() != nil), and then neither the monitor is started nor the in-process limiter asked [a caller's expired context is not an outage]; every other failure - including an error that matches DeadlineExceeded/Canceled while the caller's context is live: net's dial/IO timeout is such an error, and it means Redis is unreachable - and a reply that is not int64 first calls startMonitor and then answers rescueLimiter.AllowN(now, n) [otherwise the limiter refuses every request for the length of the outage instead of limiting in process]; the script's verdict code == 1 is used only when err == nil", func(o *core.O) {
+	r.Check("D4/K2/rescue-iff-redis-down", "reserveN: when atomic redisAlive == 0 the script is not evaluated and the answer is rescueLimiter.AllowN(now, n); after EvalCtx (decided by evaluating reserveN from the evaluation on in each scenario: the error is nil / redis.Nil / matches context.DeadlineExceeded / matches context.Canceled / is something else, the caller's ctx.Err() is nil / non-nil, the reply is / is not an int64), false is answered exactly for err == redis.Nil and for an error that matches a context error WHILE the caller's own context is done (ctx.Err() != nil), and then neither the monitor is started nor the in-process limiter asked [a caller's expired context is not an outage]; the state of the caller's context is a fact per reading: one taken after the evaluation has the scenario's state, one that can be taken before it is evaluated both as live and - when the context is done afterwards - as done already, and a return taken then without the script having been sent (an early exit for a caller that is gone) must answer false without monitor or in-process limiter [nothing was charged, nothing failed]; every other failure - including an error that matches DeadlineExceeded/Canceled while the caller's context is live: net's dial/IO timeout is such an error, and it means Redis is unreachable - and a reply that is not int64 first calls startMonitor and then answers rescueLimiter.AllowN(now, n) [otherwise the limiter refuses every request for the length of the outage instead of limiting in process]; the script's verdict code == 1 is used only when err == nil", func(o *core.O) {
 		if !o.Need(reserve != nil, "TokenLimiter.reserveN") || !o.Need(lim.has("redisAlive", "rescueLimiter"), "the limiter's redisAlive / rescueLimiter fields") {
 			return
 		}
@@ -793,6 +793,22 @@ func c08(r *core.Run) {
 			k := w.paramIndex(core.Forward(c.Call.Value))
 			return k >= 1 && k == w.paramIndex(core.Forward(ev.Call.Args[1]))
 		}
+		// A context is live until it ends and done from then on: a reading of ctx.Err() that the evaluation does
+		// not dominate can be taken before the script is sent (an early "the caller is gone already" exit), one
+		// that it dominates is taken when the answer is back. A scenario's ctxDone is the state AFTER the round
+		// trip; the state on entry is a second fact: live (the context ended in flight, if at all) or - only with
+		// ctxDone - done already. Both histories are evaluated.
+		ctxCallOf := func(v ssa.Value) *ssa.Call { c, _ := core.Forward(v).(*ssa.Call); return c }
+		afterEval := func(c *ssa.Call) bool { return c != nil && c.Parent() == f && core.Dominates(ev, c) }
+		nEarlyCtx := 0
+		for _, in := range core.Instrs(f, func(in ssa.Instruction) bool {
+			v, ok := in.(ssa.Value)
+			return ok && isCtxErrCall(v) && ctxCallOf(v) == in
+		}) {
+			if !afterEval(in.(*ssa.Call)) {
+				nEarlyCtx++
+			}
+		}
 		type c08rescueV struct{}
 		type scen struct {
 			what                        string
@@ -818,8 +834,27 @@ func c08(r *core.Run) {
 				"the limiter stops admitting instead of falling back"},
 		}
 		nCtxErr := len(core.Instrs(f, func(in ssa.Instruction) bool { v, ok := in.(ssa.Value); return ok && isCtxErrCall(v) }))
+		type c08hist struct {
+			sc          scen
+			doneOnEntry bool
+		}
+		var hists []c08hist
+		earlyReported := map[*ssa.Return]bool{}
 		for _, sc := range scens {
-			sc := sc
+			hists = append(hists, c08hist{sc, false})
+			if sc.ctxDone && nEarlyCtx > 0 {
+				sc.what += ", the caller's context being done on entry already"
+				hists = append(hists, c08hist{sc, true})
+			}
+		}
+		for _, h := range hists {
+			sc, doneOnEntry := h.sc, h.doneOnEntry
+			ctxDoneAt := func(c *ssa.Call) bool {
+				if afterEval(c) {
+					return sc.ctxDone
+				}
+				return doneOnEntry
+			}
 			it := c08exploreWatch(f, func(v ssa.Value) (any, bool) {
 				b2c := func(b bool) (any, bool) { return constant.MakeBool(b), true }
 				switch x := v.(type) {
@@ -846,7 +881,7 @@ func c08(r *core.Run) {
 					case isRescue(x):
 						return c08rescueV{}, true
 					case isCtxErrCall(x):
-						if sc.ctxDone {
+						if ctxDoneAt(ctxCallOf(x)) {
 							return c08nonNilV{}, true
 						}
 						return c08nilV{}, true
@@ -857,14 +892,14 @@ func c08(r *core.Run) {
 						case core.IsGlobal("context", "Canceled")(t):
 							return b2c(sc.isCan)
 						case isCtxErrCall(t): // errors.Is(err, ctx.Err()): the error is the caller's own context error
-							return b2c(sc.ctxDone && (sc.isDE || sc.isCan))
+							return b2c(ctxDoneAt(ctxCallOf(t)) && (sc.isDE || sc.isCan))
 						case isRNil(t):
 							return b2c(sc.isRNil)
 						}
 					}
 				}
 				return nil, false
-			}, func(in ssa.Instruction) bool { return isStart(in) })
+			}, func(in ssa.Instruction) bool { return isStart(in) || in == ssa.Instruction(ev) })
 			if it.failed != "" {
 				o.Unres("reserveN when %s: %s", sc.what, it.failed)
 				continue
@@ -880,8 +915,27 @@ func c08(r *core.Run) {
 				cv, isC := rt.vals[0].(constant.Value)
 				refused := isC && cv.Kind() == constant.Bool && !constant.BoolVal(cv)
 				_, rescued := rt.vals[0].(c08rescueV)
-				started := len(rt.trace) > 0
+				started, asked := false, false
+				for _, t := range rt.trace {
+					if t == ssa.Instruction(ev) {
+						asked = true
+					} else {
+						started = true
+					}
+				}
 				switch {
+				case !asked && doneOnEntry:
+					// the caller was gone before the script was sent: Redis was not asked, so there is no error to
+					// classify; the only answer that admits nothing and disturbs nothing is false
+					if earlyReported[rt.ret] {
+						break
+					}
+					earlyReported[rt.ret] = true
+					if rescued || started {
+						o.Fail(p.InstrPos(rt.ret), "when the caller's context is done on entry reserveN takes the fallback without having asked Redis (startMonitor called: %v, in-process limiter answers: %v): a caller that is gone is taken for a Redis outage, redisAlive drops to 0 and a full in-process bucket answers while Redis is healthy", started, rescued)
+					} else if !refused {
+						o.Fail(p.InstrPos(rt.ret), "when the caller's context is done on entry reserveN answers %s without having asked Redis, expected false: an event is admitted that no bucket was charged for", w.shape(core.Result(rt.ret, 0), nil))
+					}
 				case sc.fallback && refused:
 					hint := ""
 					if nCtxErr == 0 && !sc.errNil && (sc.isDE || sc.isCan) {
